@@ -166,6 +166,8 @@ pub fn dispatch(st: &mut ClaimState, op: &str, f: &[String]) -> Option<String> {
             format!("won={won} lost={lost} err={err}")
         }
         "q.dump" => {
+            // (a schedule of ticks only has opened no handle yet: the schema must exist before the raw dump reads it)
+            let _ = st.handle("a0");
             let p = st.dir.as_ref().unwrap().path().join("versions.db");
             dump(&p)
         }
